@@ -379,10 +379,11 @@ func (fx *fnExec) closure(h Term, alive Term) {
 	_, es, _ := arrParts(h.So)
 	if strings.HasPrefix(es, "(Array") {
 		is, _, _ := arrParts(es)
-		fx.assumps = append(fx.assumps, fmt.Sprintf("(assert (forall ((r$q Int) (i$q %s)) (! (or (= (select (select %s r$q) i$q) 0) (select %s (select (select %s r$q) i$q))) :pattern ((select (select %s r$q) i$q)))))", is, h.S, alive.S, h.S, h.S))
+		fx.assumps = append(fx.assumps, fmt.Sprintf("(assert (forall ((r$q Int) (i$q %s)) (! (=> (select %s r$q) (or (= (select (select %s r$q) i$q) 0) (select %s (select (select %s r$q) i$q)))) :pattern ((select (select %s r$q) i$q)))))", is, alive.S, h.S, alive.S, h.S, h.S))
 		return
 	}
-	fx.assumps = append(fx.assumps, fmt.Sprintf("(assert (forall ((r$q Int)) (! (or (= (select %s r$q) 0) (select %s (select %s r$q))) :pattern ((select %s r$q)))))", h.S, alive.S, h.S, h.S))
+	// only objects that are alive are constrained: the content of not-yet-allocated memory stays arbitrary
+	fx.assumps = append(fx.assumps, fmt.Sprintf("(assert (forall ((r$q Int)) (! (=> (select %s r$q) (or (= (select %s r$q) 0) (select %s (select %s r$q)))) :pattern ((select %s r$q)))))", alive.S, h.S, alive.S, h.S, h.S))
 }
 
 func isRefLeaf(l leaf) bool {
